@@ -386,3 +386,31 @@ Proof.
   - rewrite Hf. reflexivity.
   - exists (sc_chunk_exp c). split; [assumption | reflexivity].
 Qed.
+
+(* every generated scale has positive sizes and chunk sizes *)
+Lemma gen_scales_scale_pos : forall full res target ms scales s,
+  gen_scales full res target ms = Ok scales -> In s scales ->
+  (forall a, 0 < get3 a (so_size s)) /\ (forall a, 0 < get3 a (so_chunks s)).
+Proof.
+  intros full res target ms scales s Hg Hin. unfold gen_scales in Hg.
+  destruct (target_exponent target) as [t| | | | | |c0] eqn:Ht0; cbn [bind] in Hg; try discriminate.
+  set (r := fmap3 sf_of res) in *.
+  destruct (delays r) as [d| | | | | |c1]; cbn [bind] in Hg; try discriminate.
+  destruct (choose_unit_for_key (fmin3 r)) as [u| | | | | |c2]; cbn [bind] in Hg; try discriminate.
+  destruct (scales_core full d t ms) as [cores| | | | | |c3] eqn:Hc; cbn [bind] in Hg; try discriminate.
+  apply mapM_ok_Forall2 in Hg.
+  destruct (Forall2_In_l _ _ _ _ Hg Hin) as [c [Hcin Hmk]].
+  destruct (scales_core_In _ _ _ _ _ _ Hc Hcin) as [Hl [Hf [Hsz He]]].
+  pose proof (scales_core_positive _ _ _ _ _ Hc) as Hpos.
+  unfold mk_scale in Hmk.
+  destruct (format_length _ u) as [key| | | | | |c4]; cbn [bind] in Hmk; try discriminate.
+  inversion Hmk; subst s; cbn. split; intro a.
+  - rewrite Hsz. unfold level_sizes, level_factors. rewrite get3_zip3, get3_map3.
+    apply ceil_div_pos; [apply Hpos | apply Z.pow_pos_nonneg; lia].
+  - rewrite get3_map3. apply Z.pow_pos_nonneg; [lia|].
+    assert (Ht : 0 <= t).
+    { unfold target_exponent in Ht0. destruct (target <=? 0); [discriminate|].
+      destruct (2 ^ Z.log2 target =? target); [|discriminate].
+      inversion Ht0. apply Z.log2_nonneg. }
+    destruct (chunk_volume d t (sc_level c) _ Ht ltac:(lia) He) as [Hn _]. apply Hn.
+Qed.
